@@ -66,10 +66,10 @@ def run(tier, seed, replay=None):
     # ---- (2) hostile configuration files x call shapes
     ctx0 = cf.Ctx(b, os.path.join(b["root"], "tok"))
     toks = hostile_tokens(ctx0)
-    open(os.path.join(c.SPEC, "ConfigHostileRun.cfg"), "w").write(
+    open(os.path.join(c.SPEC, "ConfigHostileRun.%d.cfg" % os.getpid()), "w").write(
         'SPECIFICATION Spec\nCONSTANTS\n  NTokens = %d\n  MaxLines = 2\n  Shapes = {"normal", "nullargv"}\nINVARIANTS Dump\nCHECK_DEADLOCK FALSE\n' % len(toks))
-    g = c.run_tlc("ConfigHostile.tla", "ConfigHostileRun.cfg", heap="8g")
-    os.unlink(os.path.join(c.SPEC, "ConfigHostileRun.cfg"))
+    g = c.run_tlc("ConfigHostile.tla", "ConfigHostileRun.%d.cfg" % os.getpid(), heap="8g")
+    os.unlink(os.path.join(c.SPEC, "ConfigHostileRun.%d.cfg" % os.getpid()))
     rep.tlc(g)
     hs = [json.loads(x) for x in g.printed]
     if tier == "quick":
